@@ -14,6 +14,10 @@ elif [ "$REPO" = "/repo" ]; then
 else
   TGT=/verif/target/cli-mut-$(echo "$REPO" | tr -c 'A-Za-z0-9\n' '_')
 fi
+if [ ! -d "$TGT/release" ] && [ "$TGT" != /verif/target/cli ] && [ -d /verif/target/cli/release ]; then
+  # seed a mutant target dir from the main one: only the workspace crates are rebuilt (minutes saved)
+  mkdir -p "$TGT" && cp -a /verif/target/cli/release "$TGT/" 2>/dev/null
+fi
 mkdir -p "$TGT"
 LOG="$TGT/build.log"
 (
